@@ -23,7 +23,9 @@ ALPH = {
 DEPTH = {'quick': dict(linkimg=5, info=6, autolink=5, table=5, refdef=5),
          'thorough': dict(linkimg=6, info=7, autolink=7, table=7, refdef=6)}
 EDIT_TOKENS = ['"', "'", '<', '>', '&', '`']
-ROLE_STRINGS = ['"', "'", '<', '>', '&', 'a"b', "a'b", '<b>', '&amp;', '&quot;', '">', 'x&y', '<!--', '</p>', '\\"']
+ROLE_STRINGS = ['"', "'", '<', '>', '&', 'a"b', "a'b", '<b>', '&amp;', '&quot;', '">', 'x&y', '<!--', '</p>', '\\"',
+                # an absolute URL whose host part is not ASCII, next to the characters that must never reach an attribute raw
+                'http://b\xfc"c.d/', 'http://\uff02x\uff1c.d/', 'h\xe9"<', 'http://u@\u65e5"/']
 OPTS = [dict(html_escape_double_quotes=a, html_escape_single_quotes=b) for a in (False, True) for b in (False, True)]
 _SetAside = None
 
@@ -190,6 +192,10 @@ def run_job(job):
             r.states += 1
             check_escape_text(c, r)
             check_escape_url(c, r)
+            # the same code point inside the host part and inside the path of an absolute URL, next to quote and brackets
+            if not c.isspace():
+                check_escape_url('http://a' + c + 'b"<>.d/x', r)
+                check_escape_url('http://h.d/' + c + '"<>', r)
         r.outcome('helpers')
         r.sample(dict(space='helpers', range='U+%04X..U+%04X' % (job[1], job[2] - 1)), 1)
     elif kind == 'pairs':
